@@ -4,6 +4,7 @@
 package c19
 
 import (
+	"bytes"
 	"fmt"
 	"os"
 	"path/filepath"
@@ -114,7 +115,28 @@ func prop(c Case) (o pbt.Outcome) {
 	rollups := 0
 	modelEntries := len(c.Initial)
 
+	// every export is kept: it is what a dump in progress (DumpMetricsNow, the
+	// GetUsers RPC) holds between taking the snapshot and serialising it, and
+	// it must keep describing the counter as it was at that moment
+	type snap struct {
+		step string
+		pbm  *mpb.Metric
+		raw  []byte
+	}
+	var snaps []snap
+	detMarshal := proto.MarshalOptions{Deterministic: true}
 	check := func(step string) bool {
+		for _, sn := range snaps {
+			now, _ := detMarshal.Marshal(sn.pbm)
+			if !bytes.Equal(now, sn.raw) {
+				var sum int64
+				for _, h := range sn.pbm.History {
+					sum += h.GetDelta()
+				}
+				o.Failf("snapshot", "%s: the export taken at [%s] changed afterwards: its history now sums to %d, its value is %d", step, sn.step, sum, sn.pbm.GetValue())
+				return false
+			}
+		}
 		if got := ctr.Load(); got != total {
 			o.Failf("total", "%s: Load() = %d, sum of increments = %d", step, got, total)
 			return false
@@ -149,6 +171,10 @@ func prop(c Case) (o pbt.Outcome) {
 		}
 		if len(pbm.History) < modelEntries {
 			merged = true
+		}
+		if len(snaps) < 6 {
+			raw, _ := detMarshal.Marshal(pbm)
+			snaps = append(snaps, snap{step, pbm, raw})
 		}
 		return true
 	}
